@@ -31,11 +31,11 @@ EXPLANATION = ("Theorems (Lean): the parameter count equals the sum over maximal
 ASSUMPTIONS = ["np.linalg.slogdet / np.log accurate to rounding", "threshold 2e-5 re-extracted from the source AST on every run"]
 
 
-def fake_model(labels, thetas, covs, eps=0):
+def fake_model(labels, thetas, covs, eps=0, beta=1.0):
     """a real ModelState (real argument bundle and cluster containers) carrying the given MRFs / covariances."""
     from fast_ticc.containers import arguments, model_state
     n = thetas[0].shape[0]
-    args = arguments.UserArguments(sparsity_weight=0.11, iteration_limit=5, label_switching_cost=1.0, min_cluster_size=2,
+    args = arguments.UserArguments(sparsity_weight=0.11, iteration_limit=5, label_switching_cost=beta, min_cluster_size=2,
                                    min_meaningful_covariance=eps, num_clusters=len(thetas), num_processors=1,
                                    window_size=1, biased_covariance=False)
     st = model_state.ModelState.empty_model(args, np.zeros((len(labels), n)))
@@ -104,6 +104,14 @@ def run(ctx):
                   for s in (-12, -6, -4, 0, 4, 6, 12)]
         cfgs = [c for c in ctx.corpus if not (c.get("synthetic") or c.get("sweep"))] + \
                [tu.gen_config(ctx.rng) for _ in range(12 if ctx.quick() else 150)]
+        for j in range(3 if ctx.quick() else 20):
+            # a per-pair switching-cost vector with exact zeros at a few positions and long runs of one label across them
+            vc = tu.gen_config(ctx.rng, joint=False)
+            for k_ in ("dtype", "completion", "flat", "beta_form"):
+                vc.pop(k_, None)
+            vc.update({"beta": ctx.rng.choice([25.0, 200, 5.0]), "beta_zero_vector": ctx.rng.randrange(2 ** 31), "K": 2,
+                       "regimes": 2, "limit": max(2, vc["limit"])})
+            cfgs.append(vc)
         for K1 in (2, 3):
             # the degenerate but legal shape N = W = 1 (0-d covariances, 1x1 MRFs), scripted every run
             cfg = tu.gen_config(ctx.rng, joint=False)
@@ -147,7 +155,15 @@ def run(ctx):
                 P_ind += int(sum(1 for row in c["thetas"][l] for x in row if abs(Fraction(x)) > Fraction(1, 50000)))
             prev = l
         eps_c = [0, 1e-6, 1e-5, 1e-3][c["cov_seed"] % 4]      # the covariance floor must not move the 2e-5 counting threshold
-        got = float(cmx.bayesian_information_criterion(fake_model(c["labels"], thetas, covs, eps_c)))
+        # the hyper-parameters the criterion does not depend on are varied too: the switching cost as a per-pair vector with
+        # exact zeros (zeros INSIDE runs of one label among them), a scalar zero, a large scalar
+        bsel = c["cov_seed"] % 5
+        if bsel == 0:
+            beta_c = np.full(len(c["labels"]), 7.5)
+            beta_c[rs.rand(len(c["labels"])) < 0.4] = 0.0
+        else:
+            beta_c = [1.0, 0.0, 400, 1.0, 2.5][bsel]
+        got = float(cmx.bayesian_information_criterion(fake_model(c["labels"], thetas, covs, eps_c, beta_c)))
         want = indep_bic(c["labels"], thetas, covs, P_ind)
         if not oracles.rel_close(got, want, 1e-9, 1e-9):
             ctx.violation("impl-violation", f"BIC {got} != definition {want} (P={P_ind})", c, {"site": "bic-value"})
